@@ -76,8 +76,17 @@ func run(c *core.Ctx) {
 	gB.SevSnp.Measurements = map[uint32][]byte{4: mB4, 8: mk(0xb8)}
 	eB := gen.Endorse(pki.Signer, gB)
 	rawB, _ := proto.Marshal(eB)
+	// a forgery that re-uses a genuine signature: the payload is rewritten to list another measurement, the
+	// certificate and the signature of the genuine endorsement are kept. In isolation it is rejected (bad signature);
+	// anything remembered from an earlier genuine validation must not change that.
+	mF := mk(0xf4)
+	gF := &epb.VMGoldenMeasurement{}
+	proto.Unmarshal(e.SerializedUefiGolden, gF)
+	gF.SevSnp.Measurements = map[uint32][]byte{4: mF, 8: mF}
+	plF, _ := proto.MarshalOptions{Deterministic: true}.Marshal(gF)
+	rawF, _ := proto.Marshal(&epb.VMLaunchEndorsement{SerializedUefiGolden: plF, Signature: e.Signature})
 	inputs := []input{{0, "endorsed4", m4, raw}, {1, "endorsed8", m8, raw}, {2, "unendorsed", mk(0x55), raw}, {3, "unendorsed", make([]byte, 48), raw}, {4, "short", m4[:47], raw},
-		{5, "unendorsed", mk(0x56), raw}, {6, "endorsedB4", mB4, rawB}, {7, "unendorsed", mB4, raw}}
+		{5, "unendorsed", mk(0x56), raw}, {6, "endorsedB4", mB4, rawB}, {7, "unendorsed", mB4, raw}, {8, "forged-reusing-genuine-signature", mF, rawF}}
 	url := func(m []byte) string { return verify.GCETcbURL(extractsev.GCETcbObjectName(sev.GCEUefiFamilyID, m)) }
 	getter := func() *doubles.Getter {
 		a := map[string][]byte{}
@@ -126,6 +135,7 @@ func run(c *core.Ctx) {
 		return nil
 	}
 	ctx := context.Background()
+	zeroNow := false
 	mkSevOpts := func(cf config) *gcetcbendorsement.SevValidateOptions {
 		o := &gcetcbendorsement.SevValidateOptions{RootsOfTrust: roots, Now: now, ExpectedLaunchVmsas: cf.vmsas}
 		switch cf.source {
@@ -136,6 +146,9 @@ func run(c *core.Ctx) {
 		}
 		if cf.validators == "sevvalidate-shared-options" {
 			o.BasePolicy = &cpb.Policy{MinimumVersion: "0.0", Policy: gen.ProdPolicy()}
+			if zeroNow {
+				o.Now = time.Time{} // "the time of the call": the caller never set it and it must stay unset
+			}
 		}
 		return o
 	}
@@ -170,15 +183,29 @@ func run(c *core.Ctx) {
 		cf := configs[h%len(configs)]
 		r := c.Rand(h)
 		gname := fmt.Sprintf("history#%d validators=%s source=%s vmsas=%d goroutines=%d GOMAXPROCS=%d", h, cf.validators, cf.source, cf.vmsas, cf.gor, cf.procs)
+		if cf.validators == "sevvalidate-shared-options" && (h/len(configs)+h)%3 == 0 {
+			gname += " now=unset"
+		}
 		c.Begin(h, gname, "validator", nil)
 		old := runtime.GOMAXPROCS(cf.procs)
 		expect := map[int]bool{}
 		for _, in := range inputs {
 			expect[in.id] = isolated(cf, in)
+			// ground truth caps the expectation: an endorsement whose payload was rewritten under a re-used signature is
+			// not authentic, so wherever it is the endorsement in use the call must be rejected, whatever this process has
+			// validated before (the "isolated" evaluation above runs in a process that may already hold such state)
+			if in.kind == "forged-reusing-genuine-signature" && cf.source == "arg" {
+				if expect[in.id] {
+					c.Violate(core.Violation{Kind: "oracle", Entry: "validator/" + cf.validators, Site: "forged-endorsement-accepted-after-earlier-validations", Gen: gname, Case: h,
+						Detail: "an endorsement with a rewritten payload and a re-used genuine signature was accepted by a fresh validator in a process that had validated the genuine endorsement before"})
+				}
+				expect[in.id] = false
+			}
 		}
 		// validators are created before the goroutines start
 		var fs []func(*spb.Attestation, []byte) error
 		sharedSev = nil
+		zeroNow = cf.validators == "sevvalidate-shared-options" && (h/len(configs)+h)%3 == 0
 		var sharedSnap *gcetcbendorsement.SevValidateOptions
 		var sharedBaseSnap *cpb.Policy
 		if cf.validators == "sevvalidate-shared-options" {
@@ -205,7 +232,7 @@ func run(c *core.Ctx) {
 				if (gi%2 == 0) == (r.IntN(8) != 0) {
 					plans[gi] = append(plans[gi], []int{0, 1, 6}[r.IntN(3)])
 				} else {
-					plans[gi] = append(plans[gi], []int{2, 3, 4, 5, 7}[r.IntN(5)])
+					plans[gi] = append(plans[gi], []int{2, 3, 4, 5, 7, 8}[r.IntN(6)])
 				}
 			}
 		}
@@ -247,10 +274,11 @@ func run(c *core.Ctx) {
 		}
 		runtime.GOMAXPROCS(old)
 		if sharedSev != nil {
-			if sharedSev.Endorsement != sharedSnap.Endorsement || sharedSev.ExpectedLaunchVmsas != sharedSnap.ExpectedLaunchVmsas || sharedSev.BasePolicy == nil ||
+			if sharedSev.Endorsement != sharedSnap.Endorsement || sharedSev.ExpectedLaunchVmsas != sharedSnap.ExpectedLaunchVmsas || sharedSev.BasePolicy == nil || !sharedSev.Now.Equal(sharedSnap.Now) ||
+				sharedSev.Getter != sharedSnap.Getter || sharedSev.RootsOfTrust != sharedSnap.RootsOfTrust || sharedSev.TestonlyForceGCS != sharedSnap.TestonlyForceGCS ||
 				sharedSev.Overwrite != sharedSnap.Overwrite || !proto.Equal(sharedSev.BasePolicy, sharedBaseSnap) {
 				c.Violate(core.Violation{Kind: "oracle", Entry: "validator/" + cf.validators, Site: "caller-options-modified-by-validation", Gen: gname, Case: h,
-					Detail: fmt.Sprintf("the options value shared by the calls changed: endorsement set=%v base policy now %v, was %v", sharedSev.Endorsement != nil, sharedSev.BasePolicy, sharedBaseSnap)})
+					Detail: fmt.Sprintf("the options value shared by the calls changed: endorsement set=%v now=%v (was %v) base policy now %v, was %v", sharedSev.Endorsement != nil, sharedSev.Now, sharedSnap.Now, sharedSev.BasePolicy, sharedBaseSnap)})
 			}
 		}
 		// offline check of the recorded history
